@@ -151,6 +151,7 @@ type c14RecvConn struct {
 	calls     int
 	maxCalls  int
 	delivered int
+	symhdr    int // number of messages (counted from the first) whose SCION header bytes are symbolic
 	addr      *net.UDPAddr
 }
 
@@ -171,26 +172,55 @@ func (c *c14RecvConn) ReadBatch(msgs underlayconn.Messages) (int, error) {
 		return 0, errC14
 	}
 	for i := 0; i < k; i++ {
+		// the common header decides the processing queue (computeProcID): partly symbolic for the
+		// first symhdr messages, a fixed UDP/IPv4 header otherwise
+		b := msgs[i].Buffers[0]
+		if c.delivered < c.symhdr {
+			// symbolic flow id (queue selection by hash) and L4 type: UDP, or 0x21 (STUN overlap,
+			// "not a SCION packet"); address types stay IPv4
+			h := verif.NondetBytes("hdr", 4)
+			verif.Assume(h[0] == 17 || h[0] == 0x21)
+			b[4] = h[0]
+			copy(b[1:4], h[1:4])
+		} else {
+			b[4] = 17
+		}
 		msgs[i].N = 100
 		msgs[i].Addr = c.addr
+		c.delivered++
 	}
-	c.delivered += k
 	return k, nil
 }
 
-// VerifC14Receive params: batch, calls (max ReadBatch calls), qcap (processing queue capacity)
+// c14RecvSetup builds a connection whose distinguished link is of the requested kind
+// (0 internalLink, 1 connectedLink, 2 detachedLink) with two processing queues of capacity qcap.
+func c14RecvSetup(kind, qcap int, pool router.PacketPool) (*udpConnection, []chan *router.Packet) {
+	qs := []chan *router.Packet{make(chan *router.Packet, qcap), make(chan *router.Packet, qcap)}
+	m := router.VerifC14InterfaceMetrics()
+	seed := verif.NondetU32("seed")
+	var l udpLink
+	switch kind {
+	case 1:
+		l = &connectedLink{procQs: qs, name: "verif", metrics: m, pool: pool, seed: seed, ifID: 1}
+	case 2:
+		l = &detachedLink{procQs: qs, name: "verif", metrics: m, pool: pool, seed: seed}
+	default:
+		pq := make(chan *router.Packet, qcap)
+		l = &internalLink{procQ: pq, procQs: qs, metrics: m, pool: pool, seed: seed}
+		qs = append(qs, pq)
+	}
+	return &udpConnection{name: "verif", link: l, metrics: m}, qs
+}
+
+// VerifC14Receive params: link, batch, calls (max ReadBatch calls), qcap, symhdr
 func VerifC14Receive() {
 	batch := verif.Param("batch")
 	calls := verif.Param("calls")
 	n := batch * (calls + 1)
 	pool, all := router.VerifC14NewPool(n)
-	l := &internalLink{
-		procQ:   make(chan *router.Packet, verif.Param("qcap")),
-		metrics: router.VerifC14InterfaceMetrics(),
-		pool:    pool,
-	}
-	u := &udpConnection{name: "verif", link: l, metrics: l.metrics}
-	c := &c14RecvConn{u: u, maxCalls: calls, addr: &net.UDPAddr{IP: net.IP{10, 0, 0, 1}, Port: 30042}}
+	u, qs := c14RecvSetup(verif.Param("link"), verif.Param("qcap"), pool)
+	c := &c14RecvConn{u: u, maxCalls: calls, symhdr: verif.Param("symhdr"),
+		addr: &net.UDPAddr{IP: net.IP{10, 0, 0, 1}, Port: 30042}}
 	u.conn = c
 	u.running.Store(true)
 
@@ -198,12 +228,16 @@ func VerifC14Receive() {
 
 	times, foreign := router.VerifC14Census(pool, all)
 	queued := make([]int, n)
-	nq := len(l.procQ)
-	for i := 0; i < nq; i++ {
-		p := <-l.procQ
-		for j, q := range all {
-			if p == q {
-				queued[j]++
+	nq := 0
+	for _, q := range qs {
+		k := len(q)
+		nq += k
+		for i := 0; i < k; i++ {
+			p := <-q
+			for j, r := range all {
+				if p == r {
+					queued[j]++
+				}
 			}
 		}
 	}
@@ -222,7 +256,10 @@ func VerifC14Receive() {
 	verif.Assert("receive-every-packet-has-exactly-one-owner-at-exit", ok && foreign == 0)
 	verif.Assert("receive-handed-over-at-most-what-was-read", nq <= c.delivered)
 	if nq > 0 && nq < c.delivered {
-		verif.Cover("receive-queue-full-drop")
+		verif.Cover("receive-drop")
+	}
+	if nq >= 2 {
+		verif.Cover("receive-hand-over")
 	}
 	if c.calls > 1 {
 		verif.Cover("receive-several-batches")
@@ -234,11 +271,10 @@ func VerifC14ReceiveTwin() {
 	batch := verif.Param("batch")
 	calls := verif.Param("calls")
 	pool, _ := router.VerifC14NewPool(batch * (calls + 1))
-	l := &internalLink{procQ: make(chan *router.Packet, 2), metrics: router.VerifC14InterfaceMetrics(), pool: pool}
-	u := &udpConnection{name: "verif", link: l, metrics: l.metrics}
+	u, qs := c14RecvSetup(0, 2, pool)
 	c := &c14RecvConn{u: u, maxCalls: calls, addr: &net.UDPAddr{IP: net.IP{10, 0, 0, 1}, Port: 30042}}
 	u.conn = c
 	u.running.Store(true)
 	u.receive(batch, pool)
-	verif.Assert("twin", len(l.procQ) == 0)
+	verif.Assert("twin", len(qs[0])+len(qs[1])+len(qs[2]) == 0)
 }
